@@ -18,7 +18,13 @@ THEOREMS = [
     "C15.convert_faithful", "C15.rows_count", "C15.trailing_ignored", "C15.comment_skipped", "C15.color_skipped", "C15.leading_comment_skipped",
     "C15.bad_point_rejected", "C15.unbracketed_point_rejected", "C15.node_error_propagates", "C15.truncation_rejected_body", "C15.header_truncation_rejected", "C15.truncation_rejected", "C15.lex_skips_blanks", "C15.lex_structural",
     # about the definitions GENERATED from the current source (Gen/AlgoAsc.lean)
-    "C15.generated_from_ast_eq_rows", "C15.generated_walk_fuel", "C15.generated_rows_ids", "C15.generated_token_protocol_partial",
+    "C15.generated_from_ast_eq_rows", "C15.generated_walk_fuel", "C15.generated_rows_ids", "C15.generated_token_protocol",
+    # generated parser ∘ generated walk = the model, for every token list (Refine/AscHeap, AscLoop, AscTop, AscFuel)
+    "C15.model_fuel_suffices", "C15.generated_convert_eq_model_fuel", "C15.generated_convert_eq_model",
+    "C15.generated_convert_faithful", "C15.generated_truncation_rejected", "C15.generated_bad_point_rejected",
+    "RefineAscLoop.loop_sim", "RefineAscLoop.parse_color_refines", "RefineAscLoop.parse_comment_refines",
+    "RefineAscTop.skip_comments_sim", "RefineAscTop.parse_tree_refines", "RefineAscTop.top_sim", "RefineAscTop.parse_refines",
+    "RefineAscFuel.convertWith_nofuel",
 ]
 TRUSTED = ["hand-written lexer/parser model Model/Asc.lean (tied by the c15.convert correspondence on generated, truncated and corrupted documents); "
            "the AST is not materialised in the model: rows are created in `_parse_node` order (= the pre-order `walk_ast` assigns), covered by the correspondence"]
